@@ -193,6 +193,8 @@ def generate(seed: int, tier: str = "quick") -> Dict[str, Any]:
 
     def gen_entries() -> List[int]:
         n = rng.randint(6, 20) if deep else rng.randint(1, 12)
+        if rng.random() < 0.03:
+            return []
         if rng.random() < 0.7:
             g = rng.choice(groups)
             base = [rng.choice(g) for _ in range(n)]
@@ -207,7 +209,7 @@ def generate(seed: int, tier: str = "quick") -> Dict[str, Any]:
                 "entries": gen_entries(),
                 "cache": rng.random() < 0.8,
                 "maxsize": rng.choice([1, 2, 3, 8, 32768, 32768]),
-                "entry_jobs": rng.choice([1, 1, 1, 2, 3, 4, 8]),
+                "entry_jobs": rng.choice([1, 1, 1, 2, 3, 4, 8, 16]),
                 "rule_jobs": rng.choice([1, 1, 2, 4]),
                 "parallel_rules": rng.random() < 0.35,
                 "allow_nested": rng.random() < 0.5,
@@ -317,7 +319,7 @@ def _run(case: Dict[str, Any], sim: Sim, world: World) -> None:
 
     def configure(op: Dict[str, Any]) -> None:
         slot = op["reactor"] % 2
-        ent = [subs[i % len(subs)] for i in op["entries"]] or [subs[0]]
+        ent = [subs[i % len(subs)] for i in op["entries"]]
         data: List[Any] = [{"smi": e, "tag": k} for k, e in enumerate(ent)] if op["as_dict"] else list(ent)
         explicit_h, implicit_temp = MODES[op["mode"]]
         br = BatchReactor(data, host_key="smi" if op["as_dict"] else None, react_engine="syn",
